@@ -841,7 +841,10 @@ class Engine:
         if isinstance(node.func, ast.Attribute):
             rd = dotted(node.func.value)
             if rd not in ("self", "super()"):
-                recv = self.expr(node.func.value, fr)
+                recv = self.expr(node.func.value, fr, keep_rec=True)
+        recv_rec = recv if isinstance(recv, RecVal) else None
+        if recv_rec is not None:
+            recv = self.collapse(recv)
         args = [self.expr(a.value if isinstance(a, ast.Starred) else a, fr) for a in node.args]
         kws = {k.arg: self.expr(k.value, fr) for k in node.keywords}
         self.dom.on_call(target, node, recv, args, kws, self, fr)
@@ -864,14 +867,14 @@ class Engine:
             for callee in target.funcs:
                 if callee is None:
                     continue
-                result = self.join(result, self._call_repo(callee, target, node, recv, args, kws, fr))
+                result = self.join(result, self._call_repo(callee, target, node, recv, args, kws, fr, recv_rec=recv_rec))
             if target.kind == "ctor":
                 return self.dom.call_ext("<ctor>" + (target.cls.qualname if target.cls else "?"), node, recv, args, kws, self, fr)
             return result if result is not None else self.dom.top()
         name = target.ext if target.kind == "ext" else ("?." + node.func.attr if isinstance(node.func, ast.Attribute) else (target.text or "?"))
         return self.dom.call_ext(name, node, recv, args, kws, self, fr)
 
-    def _call_repo(self, callee: FuncInfo, target: Target, node, recv, args, kws, fr: Frame):
+    def _call_repo(self, callee: FuncInfo, target: Target, node, recv, args, kws, fr: Frame, recv_rec=None):
         params = list(callee.params)
         avals = list(args)
         is_self_call = target.bound_cls is not None
@@ -896,6 +899,11 @@ class Engine:
         else:
             concrete = callee.cls
             inst = None
+            if recv_rec is not None and callee.cls is not None:
+                nt = _namedtuple_fields(callee.cls)
+                if nt is not None and tuple(nt[0]) == tuple(recv_rec.fields):
+                    # a method of a record: self.<field> is the field's value
+                    inst = dict(zip(recv_rec.fields, recv_rec))
         return self.eval_func(callee, concrete, env, fr.stack + ((fr.func, node),), fr.depth + 1, inst=inst)
 
 
